@@ -187,7 +187,8 @@ def rule_bind(ctx, classes=SKETCH_CLASSES, methods=None):
                     a = k.argmap.get(p)
                     if a is None:
                         ctx.ob("bind", meth, k.node, "%s(%s=<missing>)" % (k.callee.name, p),
-                               "every kernel parameter is supplied", False, "no argument for `%s`" % p)
+                               "every kernel parameter is supplied", None if getattr(k, "starred", False) else False,
+                               "no argument for `%s`" % p + (" (the call splats a sequence the analysis could not write out)" if getattr(k, "starred", False) else ""))
     # kernel -> kernel: a caller's own parameter handed on under the name of a *different* parameter of the callee (names are role
     # names after canonicalisation: `uint_maxval` passed where `num_reserved` is expected)
     mods = {cls.module.short for cls in F.classes(classes)}
@@ -427,7 +428,11 @@ def _summary_units(F):
                     if not cal.is_kernel or cal.key in seen or not any(t.is_array or t.kind == "bytes" for t in cal.ptypes.values()):
                         continue
                     seen.add(cal.key)
-                    if draws(cal) or not any(cc.callee.is_kernel for cc in F.calls_from(cal)):
+                    if draws(cal) and (cal.rtype is None or getattr(cal.rtype, "kind", None) in (None, "void", "none")) and g is not f:
+                        # a refill-only helper (`rand_batch[:] = np.random.rand(n)`, returns nothing): the unit is the kernel that
+                        # calls it and hands out the draw together with the new pointer
+                        out.add(g.name)
+                    elif draws(cal) or not any(cc.callee.is_kernel for cc in F.calls_from(cal)):
                         out.add(cal.name)
                     else:
                         todo.append(cal)
@@ -1075,9 +1080,18 @@ def rule_cons(ctx, kernels=None):
         stores = [e for e in w.events if e.kind == "store" and e.arr.name == table]
         sites = group_by_node(stores)
         no_early_exit(ctx, "cons", k, w, {table}, "rows of the key")
+        # a store statement in the source that the walk produced no event for sits in a construct the walker does not enter (a loop
+        # over something other than a range): the count of sites is then not known
+        ast_sites = [n for n in walk_no_nested(k.node) if isinstance(n, (ast.Assign, ast.AugAssign))
+                     and any(isinstance(t, ast.Subscript) and isinstance(t.value, ast.Name) and t.value.id == table
+                             for t in (n.targets if isinstance(n, ast.Assign) else [n.target]))]
+        seen_nodes = {id(g[0].node) for g in sites}
+        unread_sites = [n for n in ast_sites if id(n) not in seen_nodes]
+        n_ok = len(sites) == 1 and not unread_sites
         ctx.ob("cons", k, k.node, "%d table store site(s) in %s" % (len(sites), k.name),
-               "exactly one statement writes the counter table", len(sites) == 1,
-               "" if len(sites) == 1 else "sites: %s" % [src(k, g[0].node, 50) for g in sites])
+               "exactly one statement writes the counter table", n_ok if (n_ok or not unread_sites) else None,
+               "" if n_ok else ("a store into the table at line %d is not reached by the walk (the loop around it is not a range loop): not read"
+                                % unread_sites[0].lineno) if unread_sites else "sites: %s" % [src(k, g[0].node, 50) for g in sites])
         # (iv) callees do not write the table
         for c in F.calls_from(k):
             if F.is_inlined_helper(c.callee):
@@ -1638,6 +1652,12 @@ def rule_msum(ctx):
         r2 = []
         for le in lends:
             cnt = [x for x in on_path(w.events, le) if x in stores and x.loops == le.loops]
+            if not cnt:
+                # a cell left alone because the other sketch's cell was read and found to be 0: min(a + 0, ceiling) == a
+                rd = [x for x in on_path(w.events, le) if x.kind == "read" and x.arr.name == other and x.loops == le.loops and len(x.idx) == 2]
+                if any(w.P.prove_eq0(Lin.term(x.term), le.facts) for x in rd):
+                    r2.append((True, "no store needed: the other cell is 0 on this path", fact_strs(le)))
+                    continue
             r2.append((len(cnt) == 1, "one store per cell" if len(cnt) == 1 else "%d stores on a path through the cell update" % len(cnt), fact_strs(le)))
         agg(ctx, "msum", k, k.node, "cell update of %s" % k.name, "every path through the loop body stores the cell exactly once", r2)
 
